@@ -237,7 +237,7 @@ pub fn subset_module(rng: &mut Rng, body_ops: &[SInst]) -> Vec<SInst> {
         let fid = n; n += 1;
         // the OpFunction's result type and the return type of its function type are sometimes different ids
         let (rt_f, ty_f) = match rng.below(4) { 0 => (s.t_void2, s.t_fn), 1 => (s.t_i32, s.t_fn_u), _ => (s.t_void, s.t_fn) };
-        v.push(i(54, Some(rt_f), Some(fid), vec![SOp::one("FunctionControl", *rng.pick(&[0u32, 1, 2, 4, 8, 5])), idr(ty_f)]));
+        v.push(i(54, Some(rt_f), Some(fid), vec![SOp::one("FunctionControl", *rng.pick(&[0u32, 1, 2, 4, 8, 5, 12, 13, 15, 6, 9, 0x10000, 0x1000c])), idr(ty_f)]));
         let nb = 1 + rng.below(3);
         let mut labels: Vec<u32> = vec![];
         let mut values_f: Vec<u32> = vec![];
@@ -334,8 +334,19 @@ pub fn drive(args: &[String]) {
     let mut out = Out::create(arg(args, "--out").expect("--out"));
     let mut rng = Rng::new(arg_num(args, "--seed", 1));
     let n = arg_num(args, "--n", 200) as usize;
-    for _ in 0..n {
-        let insts = subset_module(&mut rng, &[]);
+    for k in 0..n {
+        let mut insts = subset_module(&mut rng, &[]);
+        // ids are names: "declared before use" says nothing about their numeric order.  Every third module has its ids
+        // renamed by a permutation (reversed / interleaved), in every position that holds an id.
+        if k % 3 == 1 {
+            let mx = insts.iter().flat_map(|x| x.rid.iter().chain(x.rt.iter()).cloned().chain(x.ops.iter().filter(|o| matches!(o.k.as_str(), "IdRef" | "IdScope" | "IdMemorySemantics")).map(|o| o.w[0]))).filter(|v| *v < 100000).max().unwrap_or(1);
+            let rev = k % 2 == 0;
+            let ren = |v: u32| -> u32 { if v == 0 || v > mx { v } else if rev { mx + 1 - v } else if v % 2 == 0 { v / 2 } else { mx / 2 + 1 + v / 2 } };
+            for x in insts.iter_mut() {
+                x.rid = x.rid.map(ren); x.rt = x.rt.map(ren);
+                for o in x.ops.iter_mut() { if matches!(o.k.as_str(), "IdRef" | "IdScope" | "IdMemorySemantics") { o.w[0] = ren(o.w[0]); } }
+            }
+        }
         if let Some(mut m) = load(&insts, *rng.pick(&[0x0001_0000u32, 0x0001_0300, 0x0001_0600])) {
             // "preserves the version word": whatever the word holds (the loader normalises it, so it is set on the module)
             if rng.chance(1, 3) { if let Some(h) = m.header.as_mut() { h.version = *rng.pick(&[0x0001_0301u32, 0x0101_0300, 0xffff_ffff, 0, 0x0000_00ff]); } }
